@@ -116,6 +116,25 @@ def _bol(it, ctx, t):
     return truth_in(it, ctx, v)
 
 
+def _ends_list(it, ctx, t, E):
+    """True/False/None: the token is the TK_EOF that ends a token list, as far as the finished path says"""
+    k = t.fields.get('kind') if isinstance(t, Obj) else None
+    if k is None:
+        return None
+    k = settle(it, k)
+    if isinstance(k, int):
+        return k == E['TK_EOF']
+    saved = it.ctx
+    it.ctx = ctx
+    try:
+        v = it.cmp('==', k, E['TK_EOF'])
+    except Exception:
+        return None
+    finally:
+        it.ctx = saved
+    return truth_in(it, ctx, v)
+
+
 def _check_eol_scan(it, ctx, rep, rule, fn, first, result, where, seen):
     """result must be the first token at or after `first` that begins a line"""
     key = '%s:%s:' % (U, fn)
@@ -127,7 +146,10 @@ def _check_eol_scan(it, ctx, rep, rule, fn, first, result, where, seen):
     if skipped is None:
         rep.ob(rule, key + 'result-not-on-the-list', False, '%s hands back a token that is not reached from its argument by ->next' % fn, where=where, facts={'path': ctx.trail})
         return
+    E = it.unit.enums
     rb = _bol(it, ctx, result)
+    if rb is not True and _ends_list(it, ctx, result, E) is True:
+        rb = True      # the end of the token list ends the line as well (a directive inside a macro argument)
     seen['paths'] += 1
     if skipped:
         seen['skipping'] += 1
@@ -135,13 +157,13 @@ def _check_eol_scan(it, ctx, rep, rule, fn, first, result, where, seen):
            '%s can hand back a token that does not begin a line (after passing %d token(s)): the rest of the directive line is then '
            'treated as ordinary program text (e.g. `#endif X` leaks X into the output)' % (fn, len(skipped)), where=where,
            facts={'path': ctx.trail, 'passed': len(skipped)})
-    bad = [t for t in skipped if _bol(it, ctx, t) is not False]
+    bad = [t for t in skipped if _bol(it, ctx, t) is not False or _ends_list(it, ctx, t, E) is True]
     rep.ob(rule, key + ('passes-only-mid-line-tokens' if not bad else 'skips-past-line-start'), not bad,
-           '%s passes over a token that begins a new line: text of the following line is dropped' % fn, where=where, facts={'path': ctx.trail})
+           '%s passes over a token that begins a new line (or over the end of the token list): text of the following line is dropped' % fn, where=where, facts={'path': ctx.trail})
 
 
 def r101(P, u, T, rep):
-    rep.rule('R10.1', 'end-of-line scans (skip_line, copy_line, the #pragma arm) stop exactly at the first token that begins a line, and every '
+    rep.rule('R10.1', 'end-of-line scans (skip_line, copy_line, the #pragma arm) stop exactly at the first token that begins a line or ends the token list, and every '
              'directive arm of the dispatcher leaves the stream at a line start', floor=FLOORS['R10.1'])
     # skip_line
     it = PPInterp(P, u, {'opaque': ['warn_tok'], 'loop_limit': 3})
